@@ -83,6 +83,31 @@ def bank_list(banks: list):
         restore(snap)
 
 
+@contextmanager
+def bank_list_refreshed(banks: list):
+    """A run-time update: the bank list is replaced by ``banks`` while the indexes built at import
+    are still there, then the library's own index-building statements run again (the refresh)."""
+    snap = snapshot()
+    try:
+        registry.save("bank", banks)
+        reinit(("bank",))
+        yield
+    finally:
+        restore(snap)
+
+
+@contextmanager
+def iban_table_saved(table: dict):
+    """A run-time update of the country table through registry.save (entries keep their compiled
+    'regex' objects; nothing else is re-initialised)."""
+    snap = snapshot()
+    try:
+        registry.save("iban", table)
+        yield
+    finally:
+        restore(snap)
+
+
 class OrderedDir(type(pathlib.Path())):
     """A directory whose glob() yields entries in an order the harness decides (the OS's listing
     order is nondeterminism the loader must not depend on)."""
